@@ -94,6 +94,8 @@ type loopInfo struct {
 	hasDec  bool
 	backSts []*State
 	frameIn    *State
+	frameBound T
+	entryAlloc T
 	frameHeaps []string
 }
 
@@ -425,6 +427,7 @@ func (fr *frame) enterLoop(h *ssa.BasicBlock, edges []edgeState, ord int) (*Stat
 		entryVals[phi] = fr.mergePhi(phi, edges)
 	}
 	envIn := fr.loopEnv(h, entryVals, stIn)
+	envIn.loopAlloc = stIn.alloc
 	for i, cl := range invs {
 		vc.oblige("inv", fmt.Sprintf("loop%d.inv%d.entry", ord, i+1), gIn, vc.evalGoal(cl.Expr, envIn))
 	}
@@ -463,6 +466,8 @@ func (fr *frame) enterLoop(h *ssa.BasicBlock, edges []edgeState, ord int) (*Stat
 	}
 	li.st = hst.clone()
 	envH := fr.loopEnv(h, li.phis, hst)
+	envH.loopAlloc = stIn.alloc
+	li.entryAlloc = stIn.alloc
 	envH.old = vc.entry
 	for _, cl := range invs {
 		vc.assume(implies(gIn, vc.evalHyp(cl.Expr, envH, gIn)))
@@ -477,13 +482,19 @@ func (fr *frame) enterLoop(h *ssa.BasicBlock, edges []edgeState, ord int) (*Stat
 				except[x] = true
 			}
 			li.frameIn = stIn.clone()
+			li.frameBound = "alloc@0"
+			if except["strict"] {
+				// loop N frame strict: every cell allocated before the loop is entered (not only before the function
+				// was entered) keeps its content
+				li.frameBound = stIn.alloc
+			}
 			for _, k := range names {
 				if !(mod == nil || mod[k]) || vc.ghost[k] || except[k] || k == "Hrng" || vc.isLibState(k) || !strings.HasPrefix(vc.heapSort[k], "(Array Int") {
 					continue
 				}
 				li.frameHeaps = append(li.frameHeaps, k)
 				hin := vc.heapGet(stIn, k)
-				vc.assume("(forall ((fr_r Int)) (! (=> (and (<= 0 fr_r) (< fr_r alloc@0)) (= (select " + hst.heaps[k] + " fr_r) (select " + hin + " fr_r))) :pattern ((select " + hst.heaps[k] + " fr_r))))")
+				vc.assume("(forall ((fr_r Int)) (! (=> (and (<= 0 fr_r) (< fr_r " + li.frameBound + ")) (= (select " + hst.heaps[k] + " fr_r) (select " + hin + " fr_r))) :pattern ((select " + hst.heaps[k] + " fr_r))))")
 			}
 		}
 	}
@@ -517,6 +528,7 @@ func (fr *frame) backEdge(h *ssa.BasicBlock, from *ssa.BasicBlock, st *State, g 
 		backVals[phi] = fr.val(phi.Edges[idx])
 	}
 	env := fr.loopEnv(h, backVals, st)
+	env.loopAlloc = li.entryAlloc
 	n := 0
 	be := "" // several back edges (continue, short-circuit conditions): one obligation per edge
 	if len(li.backSts) > 1 {
@@ -537,7 +549,7 @@ func (fr *frame) backEdge(h *ssa.BasicBlock, from *ssa.BasicBlock, st *State, g 
 	// loop frame: cells that existed at loop entry are unchanged at the back edge
 	for _, k := range li.frameHeaps {
 		sk := vc.fresh("lfr_"+k, "Int")
-		vc.oblige("inv", fmt.Sprintf("loop%d.frame.%s.preserve%s", li.ord, k, be), and(g, le("0", sk), lt(sk, "alloc@0")),
+		vc.oblige("inv", fmt.Sprintf("loop%d.frame.%s.preserve%s", li.ord, k, be), and(g, le("0", sk), lt(sk, li.frameBound)),
 			eq(sel(vc.heapGet(st, k), sk), sel(vc.heapGet(li.frameIn, k), sk)))
 	}
 	// record which heaps the body modified (for the discovery pass)
